@@ -10,6 +10,8 @@ pub mod c05;
 pub mod c06;
 pub mod c07;
 pub mod c08;
+pub mod c09;
+pub mod c19;
 pub mod c20;
 
 use crate::engine::run::Ctx;
@@ -26,6 +28,8 @@ pub fn dispatch(id: &str, ctx: &Ctx) -> Option<i32> {
         "C06" => c06::run(ctx),
         "C07" => c07::run(ctx),
         "C08" => c08::run(ctx),
+        "C09" => c09::run(ctx),
+        "C19" => c19::run(ctx),
         "C20" => c20::run(ctx),
         "SELFTEST" => selftest::run(),
         _ => return None,
